@@ -10,6 +10,24 @@ CHECKS = {
     note="Trusted: CrossHair 0.0.110 symbolic str/int/container semantics, the dict/set display plugin (vlib/plugin.py), z3 5.1, the rapidfuzz contract model (models/rf_model.py; every solver witness is replayed on the real rapidfuzz-backed stack).",
     ref="DESIGN.md section 6 C01"),
 }
+
+_XH_NOTE = "Trusted: CrossHair 0.0.110 symbolic str/int/container semantics, the dict/set display plugin (vlib/plugin.py), z3 5.1, and the library contract models named in the evidence (each validated by the conformance pre-flight and by replaying every sampled solver witness on the real, unmodelled stack)."
+CHECKS["C03"] = dict(
+    technique="bounded symbolic execution of the real two-collection search code (symdel seqs2 / SymdelDB.lookup / LookupDB.lookup) with CrossHair + z3; database histories via one inductive step (lookup leaves the index unchanged)",
+    text="Per shape (1-3 references x 1-3 queries, lengths <=3 quick / <=4 thorough, max_edits<=3) the real lookup code runs on free symbolic strings; the assertion (exact triplet set, query/reference orientation, equal-position pairs, index unchanged by a lookup, second lookup equals a fresh search) is confirmed on every path or refuted with a concrete input that is replayed on the real stack.",
+    note=_XH_NOTE + " LookupDB is exercised with pyrepseq's alphabet constant rebound to 2-3 letters (20 letters at length <=1).",
+    ref="DESIGN.md section 6 C03")
+CHECKS["C04"] = dict(
+    technique="bounded symbolic execution of the real hash_based and kdtree code against the Levenshtein-ball specification (CrossHair + z3), KD-tree / rapidfuzz.extract / NumPy replaced by contract models",
+    text="Per shape (2-3 amino-acid strings, lengths <=3, contents free within 2-3 letter sub-alphabets that share or straddle kdtree's composition bins, max_edits<=3, compression 1-3) the real engines are executed symbolically and must return exactly the specified triplet set; bounded model checking with the KD-tree ball query as a contract.",
+    note=_XH_NOTE,
+    ref="DESIGN.md section 6 C04")
+CHECKS["C07"] = dict(
+    technique="bounded symbolic execution of all three engines in Hamming mode (incl. symdel's two-collection form) on mixed-length inputs, CrossHair + z3",
+    text="Per shape (2-4 strings of interleaved lengths <=3) the real code must return exactly the equal-length pairs within max_edits mismatches with positions in input order; confirmed over all paths or refuted with a replayed concrete input.",
+    note=_XH_NOTE,
+    ref="DESIGN.md section 6 C07")
+
 NOT_APPLICABLE = {}
 
 def main():
